@@ -21,6 +21,8 @@ type SV struct {
 	Math bool       // mathematical integer
 }
 
+var seqIntType types.Type = types.NewNamed(types.NewTypeName(0, nil, "seqbytes", nil), types.NewStruct(nil, nil), nil)
+
 var seqType types.Type = types.NewNamed(types.NewTypeName(0, nil, "seq", nil), types.NewStruct(nil, nil), nil)
 
 var (
@@ -168,6 +170,17 @@ func (fx *FnExec) specEnv(st *State, old *State, loop *loopInfo) *SpecEnv {
 			}
 		}
 	}
+	if loop != nil {
+		// inside the body (loop invariants, variants) a parameter name denotes the current value of the parameter
+		// variable, which the body may have assigned; in pre/postconditions it denotes the argument
+		for _, p := range fx.fn.Params {
+			if env.localVarQuick(p.Name()) != nil && env.fx != nil {
+				if _, ok := st.locals[env.localVarQuick(p.Name())]; ok {
+					delete(env.vars, p.Name())
+				}
+			}
+		}
+	}
 	return env
 }
 
@@ -182,6 +195,14 @@ func (env *SpecEnv) eval(x *SExpr) *SV {
 	e := env.e
 	switch x.Op {
 	case "num":
+		if strings.ContainsAny(x.Name, ".") {
+			f, err := strconv.ParseFloat(x.Name, 64)
+			if err != nil {
+				env.errorf("bad number %s", x.Name)
+				return mathSV("0")
+			}
+			return &SV{V: scalar(fpLit(f)), T: types.Typ[types.Float64]}
+		}
 		v, err := strconv.ParseInt(x.Name, 0, 64)
 		if err != nil {
 			uv, err2 := strconv.ParseUint(x.Name, 0, 64)
@@ -263,6 +284,23 @@ func (env *SpecEnv) evalIdent(name string) *SV {
 	case "nil":
 		return &SV{V: scalar("0"), T: types.Typ[types.UntypedNil]}
 	case "$i":
+		if env.loop == nil && env.fx != nil {
+			// outside a loop context (postconditions): the index cell of the function's only slice-range loop
+			var only *loopInfo
+			n := 0
+			for _, li := range env.fx.loopList {
+				if li.idxAlloc != nil {
+					only = li
+					n++
+				}
+			}
+			if n == 1 {
+				if cur, ok := env.state().locals[only.idxAlloc]; ok {
+					return mathSV(cur[0])
+				}
+				return mathSV("(- 1)") // the loop was not reached on this path
+			}
+		}
 		if env.loop != nil && env.loop.idxAlloc != nil {
 			st := env.state()
 			cur, ok := st.locals[env.loop.idxAlloc]
@@ -328,6 +366,14 @@ func (env *SpecEnv) localVar(name string) *SV {
 	fx := env.fx
 	e := env.e
 	st := env.state()
+	if env.inOld && env.old != nil {
+		// inside old() a parameter denotes the argument (its local cell does not exist yet in the entry state)
+		for i, p := range fx.fn.Params {
+			if p.Name() == name && i < len(fx.args) && fx.args[i] != nil {
+				return &SV{V: fx.args[i], T: p.Type()}
+			}
+		}
+	}
 	for _, fv := range fx.fn.FreeVars {
 		if fv.Name() == name {
 			pv := st.regs[fv]
@@ -384,6 +430,23 @@ func (fx *FnExec) ptrLocNoCheck(pv *Val, ptrT types.Type) *Loc {
 func (env *SpecEnv) ghostValue(g *GhostDecl) *SV {
 	e := env.e
 	key := "G|" + g.Name
+	if g.Type.Kind == "map" && g.Type.Elem.Kind == "named" && g.Type.Elem.Pkg == "" && g.Type.Elem.Name == "seqbytes" {
+		kt := e.resolveType(g.Type.Key, g.Pkg)
+		if kt == nil {
+			env.errorf("cannot resolve ghost type %s", g.Type)
+			return nil
+		}
+		e.seqSetupInt()
+		k := key + "|0"
+		e.regHeap(k, arrSort(e.fl.leaves(kt)[0].Sort, "SeqInt"), g.Name, "G", nil)
+		return &SV{V: &Val{L: []string{e.heapGet(env.state(), k)}}, GK: kt, GV: seqIntType}
+	}
+	if g.Type.Kind == "named" && g.Type.Pkg == "" && g.Type.Name == "seqbytes" {
+		e.seqSetupInt()
+		k := key + "|0"
+		e.regHeap(k, "SeqInt", g.Name, "G", nil)
+		return &SV{V: &Val{L: []string{e.heapGet(env.state(), k)}}, T: seqIntType}
+	}
 	if g.Type.Kind == "map" {
 		kt, vt := e.resolveType(g.Type.Key, g.Pkg), e.resolveType(g.Type.Elem, g.Pkg)
 		if kt == nil || vt == nil {
@@ -887,9 +950,96 @@ func (env *SpecEnv) evalCall(x *SExpr) *SV {
 				env.errorf("seq() needs a slice")
 				return nil
 			}
-			e.seqSetup()
 			row := sel(e.heapGet(env.state(), e.keyElemOf(sl.Elem(), 0, a.V.L[0])), a.V.L[0])
+			if isInteger(sl.Elem()) {
+				e.seqSetupInt()
+				return &SV{V: scalar(app("seqofI", row, a.V.L[1], a.V.L[2])), T: seqIntType}
+			}
+			e.seqSetup()
 			return &SV{V: scalar(app("seqof", row, a.V.L[1], a.V.L[2])), T: seqType}
+		case "cat":
+			a, b := env.eval(args[0]), env.eval(args[1])
+			if a == nil || b == nil {
+				return nil
+			}
+			if a.T == seqIntType {
+				return &SV{V: scalar(app("seqI_cat", a.V.L[0], b.V.L[0])), T: seqIntType}
+			}
+			return &SV{V: scalar(app("seq_cat", a.V.L[0], b.V.L[0])), T: seqType}
+		case "deref":
+			a := env.eval(args[0])
+			if a == nil || a.T == nil {
+				return nil
+			}
+			pt, ok := a.T.Underlying().(*types.Pointer)
+			if !ok {
+				env.errorf("deref() needs a pointer")
+				return nil
+			}
+			fx := env.fx
+			if fx == nil {
+				fx = &FnExec{e: e}
+			}
+			loc := fx.ptrLocNoCheck(a.V, a.T)
+			return &SV{V: &Val{L: e.loadLoc(env.state(), loc)}, T: pt.Elem()}
+		case "tofloat":
+			a := env.eval(args[0])
+			if a == nil {
+				return nil
+			}
+			return &SV{V: scalar(app(e.fpConvFuns(), a.V.L[0])), T: types.Typ[types.Float64]}
+		case "isnan":
+			a := env.eval(args[0])
+			return boolSV("(fp.isNaN " + a.V.L[0] + ")")
+		case "emptybytes":
+			e.seqSetupInt()
+			return &SV{V: scalar("seqI_empty"), T: seqIntType}
+		case "bytes1":
+			a := env.eval(args[0])
+			e.seqSetupInt()
+			return &SV{V: scalar(app("seqI_single", a.V.L[0])), T: seqIntType}
+		case "slen":
+			a := env.eval(args[0])
+			e.seqSetupInt()
+			return mathSV(app("seqI_len", a.V.L[0]))
+		case "hasprefix", "contains", "hassuffix":
+			a, b := env.eval(args[0]), env.eval(args[1])
+			if a == nil || b == nil {
+				return boolSV("false")
+			}
+			if e.c.strTheory {
+				op := map[string]string{"hasprefix": "str.prefixof", "hassuffix": "str.suffixof", "contains": "str.contains"}[fnx.Name]
+				if fnx.Name == "contains" {
+					return boolSV("(" + op + " " + a.V.L[0] + " " + b.V.L[0] + ")")
+				}
+				return boolSV("(" + op + " " + b.V.L[0] + " " + a.V.L[0] + ")")
+			}
+			f := e.c.fun("str_"+fnx.Name, []Sort{SStr, SStr}, SBool)
+			return boolSV(app(f, a.V.L[0], b.V.L[0]))
+		case "trimprefix":
+			a, b := env.eval(args[0]), env.eval(args[1])
+			if a == nil || b == nil {
+				return nil
+			}
+			if e.c.strTheory {
+				s0, p0 := a.V.L[0], b.V.L[0]
+				return &SV{V: scalar(fmt.Sprintf("(ite (str.prefixof %s %s) (str.substr %s (str.len %s) (- (str.len %s) (str.len %s))) %s)", p0, s0, s0, p0, s0, p0, s0)), T: tString}
+			}
+			f := e.c.fun("str_trimprefix", []Sort{SStr, SStr}, SStr)
+			return &SV{V: scalar(app(f, a.V.L[0], b.V.L[0])), T: tString}
+		case "inre":
+			// inre(s, "<go regexp literal>"): membership in the regular language of a constant Go regexp
+			a := env.eval(args[0])
+			if a == nil || args[1].Op != "str" || !e.c.strTheory {
+				env.errorf("inre needs string theory and a literal pattern")
+				return boolSV("false")
+			}
+			rl, err := goRegexToRegLan(args[1].Name)
+			if err != nil {
+				env.errorf("inre: %v", err)
+				return boolSV("false")
+			}
+			return boolSV("(str.in_re " + a.V.L[0] + " " + rl + ")")
 		case "sliceoff":
 			a := env.eval(args[0])
 			if a == nil || len(a.V.L) != 3 {
@@ -1072,6 +1222,12 @@ func (env *SpecEnv) evalCall(x *SExpr) *SV {
 				so := SInt
 				if t != nil {
 					so = e.fl.leaves(t)[0].Sort
+				} else if at.Name == "seqbytes" {
+					e.seqSetupInt()
+					so = "SeqInt"
+				} else if at.Name == "seq" {
+					e.seqSetup()
+					so = "SeqStr"
 				}
 				sorts = append(sorts, so)
 				if i < len(args) {
@@ -1090,6 +1246,12 @@ func (env *SpecEnv) evalCall(x *SExpr) *SV {
 				f := e.c.fun("uf_"+uf.Name, sorts, "SeqStr")
 				e.includeRawAxioms()
 				return &SV{V: scalar(app(f, terms...)), T: seqType}
+			}
+			if uf.Res.Name == "seqbytes" && uf.Res.Pkg == "" {
+				e.seqSetupInt()
+				f := e.c.fun("uf_"+uf.Name, sorts, "SeqInt")
+				e.includeRawAxioms()
+				return &SV{V: scalar(app(f, terms...)), T: seqIntType}
 			}
 			if rt != nil && !(uf.Res.Name == "int" && uf.Res.Pkg == "") {
 				rs = e.fl.leaves(rt)[0].Sort
@@ -1360,6 +1522,28 @@ func (e *Engine) seqSetup() {
 	c.axiom("seq:unitr", "(forall ((s!q SeqStr)) (! (= (seq_cat s!q seq_empty) s!q) :pattern ((seq_cat s!q seq_empty))))", "seq_cat")
 }
 
+// seqSetupInt: the same for sequences of integers (bytes).
+func (e *Engine) seqSetupInt() {
+	c := e.c
+	if _, ok := c.decls["seqofI"]; ok {
+		return
+	}
+	c.declareSort("SeqInt")
+	c.add(&decl{name: "seqI_empty", sort: "SeqInt", deps: []string{"sort:SeqInt"}})
+	c.fun("seqI_single", []Sort{SInt}, "SeqInt")
+	c.fun("seqI_cat", []Sort{"SeqInt", "SeqInt"}, "SeqInt")
+	c.fun("seqI_len", []Sort{"SeqInt"}, SInt)
+	c.fun("seqofI", []Sort{arrSort(SInt, SInt), SInt, SInt}, "SeqInt")
+	row := arrSort(SInt, SInt)
+	c.axiom("seqI:len0", fmt.Sprintf("(forall ((r!q %s) (o!q Int)) (! (= (seqofI r!q o!q 0) seqI_empty) :pattern ((seqofI r!q o!q 0))))", row), "seqofI")
+	c.axiom("seqI:len1", fmt.Sprintf("(forall ((r!q %s) (o!q Int)) (! (= (seqofI r!q o!q 1) (seqI_single (select r!q o!q))) :pattern ((seqofI r!q o!q 1))))", row), "seqofI")
+	c.axiom("seqI:unitl", "(forall ((s!q SeqInt)) (! (= (seqI_cat seqI_empty s!q) s!q) :pattern ((seqI_cat seqI_empty s!q))))", "seqI_cat")
+	c.axiom("seqI:unitr", "(forall ((s!q SeqInt)) (! (= (seqI_cat s!q seqI_empty) s!q) :pattern ((seqI_cat s!q seqI_empty))))", "seqI_cat")
+	c.axiom("seqI:lene", "(= (seqI_len seqI_empty) 0)", "seqI_len")
+	c.axiom("seqI:lens", "(forall ((x!q Int)) (! (= (seqI_len (seqI_single x!q)) 1) :pattern ((seqI_single x!q))))", "seqI_len")
+	c.axiom("seqI:lenc", "(forall ((a!q SeqInt) (b!q SeqInt)) (! (= (seqI_len (seqI_cat a!q b!q)) (+ (seqI_len a!q) (seqI_len b!q))) :pattern ((seqI_cat a!q b!q))))", "seqI_len")
+}
+
 // includeRawAxioms registers the package's raw (definitional) axioms in this context.
 func (e *Engine) includeRawAxioms() {
 	if e.rawDone {
@@ -1395,6 +1579,12 @@ func (e *Engine) declareUF(uf *UFDecl) {
 		so := SInt
 		if t != nil {
 			so = e.fl.leaves(t)[0].Sort
+		} else if at.Name == "seqbytes" {
+			e.seqSetupInt()
+			so = "SeqInt"
+		} else if at.Name == "seq" {
+			e.seqSetup()
+			so = "SeqStr"
 		}
 		sorts = append(sorts, so)
 	}
@@ -1402,6 +1592,9 @@ func (e *Engine) declareUF(uf *UFDecl) {
 	if uf.Res.Name == "seq" && uf.Res.Pkg == "" {
 		e.seqSetup()
 		rs = "SeqStr"
+	} else if uf.Res.Name == "seqbytes" && uf.Res.Pkg == "" {
+		e.seqSetupInt()
+		rs = "SeqInt"
 	} else if rt := e.resolveType(uf.Res, uf.Pkg); rt != nil && !(uf.Res.Name == "int" && uf.Res.Pkg == "") {
 		rs = e.fl.leaves(rt)[0].Sort
 	}
